@@ -1,6 +1,7 @@
 package main
 
 import (
+	"encoding/json"
 	"flag"
 	"fmt"
 	"os"
@@ -26,6 +27,8 @@ func main() {
 	switch os.Args[1] {
 	case "check":
 		os.Exit(cmdCheck(os.Args[2:]))
+	case "survey":
+		os.Exit(cmdSurvey(os.Args[2:]))
 	case "list":
 		w, err := loadWorld()
 		if err != nil {
@@ -73,8 +76,10 @@ func cmdCheck(args []string) int {
 		fmt.Println("CONTRACT-PROBLEM:", p)
 	}
 	timeout := 20
+	w.UnitBudget = 60
 	if *tier == "thorough" {
 		timeout = 120
+		w.UnitBudget = 600
 	}
 	run := &Run{w: w, prop: *prop, tier: *tier, timeout: timeout, verbose: *verbose, start: start, only: *only, keep: *keep}
 	return run.execute()
@@ -90,6 +95,8 @@ type Run struct {
 	only          string
 	start         time.Time
 	units         []*UnitResult
+	survey        bool
+	unclaimed     []string
 	canarySat     int
 	canaryUnknown int
 	vacuous       []string
@@ -100,7 +107,7 @@ func (r *Run) selectDecls() []*Decl {
 	var sel []*Decl
 	seen := map[*Decl]bool{}
 	for _, d := range r.w.AllDecls {
-		if d.Kind == "spec" || d.Kind == "type" {
+		if d.Kind == "spec" || d.Kind == "type" || d.Kind == "sweep" || d.Kind == "gocode" {
 			continue
 		}
 		if r.prop != "" && !hasTag(d.Tags, r.prop) {
@@ -108,6 +115,12 @@ func (r *Run) selectDecls() []*Decl {
 		}
 		if r.only != "" && !strings.Contains(r.w.unitName(d), r.only) {
 			continue
+		}
+		if d.Sweep && !r.survey {
+			if led := sweepLedger(r.prop); led != nil && !led[r.w.unitName(d)] {
+				r.unclaimed = append(r.unclaimed, r.w.unitName(d))
+				continue
+			}
 		}
 		if !seen[d] {
 			seen[d] = true
@@ -166,7 +179,7 @@ func (r *Run) execute() int {
 	} else {
 		defer os.RemoveAll(dir)
 	}
-	dis := &Discharger{w: w, dir: dir, timeout: r.timeout, sem: make(chan struct{}, 24)}
+	dis := &Discharger{w: w, dir: dir, timeout: r.timeout, sem: make(chan struct{}, 24), survey: r.survey}
 	var wg sync.WaitGroup
 	for _, u := range r.units {
 		for _, o := range u.Obls {
@@ -187,6 +200,10 @@ func (r *Run) execute() int {
 				dis.discharge(o)
 			}()
 		}
+	}
+	if r.survey {
+		wg.Wait()
+		return 0
 	}
 	// vacuity canaries: the hypotheses of the last obligation of every unit must be satisfiable
 	type canary struct {
@@ -228,4 +245,78 @@ func (r *Run) execute() int {
 	}
 	r.scanProblems = w.checkEstablishedBy()
 	return r.report()
+}
+
+// survey: run the sweep units of a property with short timeouts and record which of them verify completely.
+// The result (/verif/baseline/sweep_<prop>.json) is the committed ledger: checks claim exactly those units.
+func cmdSurvey(args []string) int {
+	fs := flag.NewFlagSet("survey", flag.ExitOnError)
+	prop := fs.String("prop", "", "property id")
+	only := fs.String("only", "", "restrict to units whose name contains this")
+	to := fs.Int("timeout", 8, "solver timeout per stage")
+	fs.Parse(args)
+	w, err := loadWorld()
+	if err != nil {
+		fmt.Fprintln(os.Stderr, "load error:", err)
+		return 2
+	}
+	w.UnitBudget = 30
+	run := &Run{w: w, prop: *prop, tier: "quick", timeout: *to, start: time.Now(), only: *only, survey: true}
+	run.execute()
+	type entry struct {
+		Unit        string `json:"unit"`
+		Obligations int    `json:"obligations"`
+		Status      string `json:"status"`
+		Reason      string `json:"reason,omitempty"`
+	}
+	var out []entry
+	pass := 0
+	for _, u := range run.units {
+		if !u.Decl.Sweep {
+			continue
+		}
+		e := entry{Unit: u.Name, Obligations: len(u.Obls), Status: "verified"}
+		if u.Undecided != "" {
+			e.Status, e.Reason = "undecided", u.Undecided
+		} else {
+			for _, o := range u.Obls {
+				if o.Status != "discharged" {
+					e.Status = "open"
+					e.Reason = o.Name + ": " + o.Status + " (" + o.Clause + ")"
+					break
+				}
+			}
+		}
+		if e.Status == "verified" {
+			pass++
+		}
+		out = append(out, e)
+	}
+	os.MkdirAll(filepath.Join(verifDir, "baseline"), 0755)
+	b, _ := json.MarshalIndent(out, "", " ")
+	os.WriteFile(filepath.Join(verifDir, "baseline", "sweep_"+*prop+".json"), b, 0644)
+	fmt.Printf("survey %s: %d of %d sweep units verified\n", *prop, pass, len(out))
+	return 0
+}
+
+// sweepLedger: units claimed for a property (nil if there is no ledger)
+func sweepLedger(prop string) map[string]bool {
+	b, err := os.ReadFile(filepath.Join(verifDir, "baseline", "sweep_"+prop+".json"))
+	if err != nil {
+		return nil
+	}
+	var es []struct {
+		Unit   string `json:"unit"`
+		Status string `json:"status"`
+	}
+	if json.Unmarshal(b, &es) != nil {
+		return nil
+	}
+	m := map[string]bool{}
+	for _, e := range es {
+		if e.Status == "verified" {
+			m[e.Unit] = true
+		}
+	}
+	return m
 }
